@@ -144,6 +144,9 @@ func (g *genCtx) stdCallbacks() {
 	if g.r.p(0.25) {
 		g.cbs = append(g.cbs, COpt{Kind: "fn", Name: "f1", Fn: "fail:1"})
 	}
+	if g.r.p(0.4) {
+		g.cbs = append(g.cbs, COpt{Kind: "fn", Name: "re", Fn: "reenter"})
+	}
 }
 
 // genProgram generates one evaluate program with its compile options.
